@@ -35,6 +35,7 @@ fn main() {
         "steer" => {
             let opts = steer::Opts {
                 cancelable: kv.contains_key("cancelable"),
+                ready: !kv.contains_key("not-ready"),
                 ring: num("ring", 0) as usize,
                 queue: num("queue", 0) as usize,
                 stack: num("stack", 0) as usize,
